@@ -189,48 +189,7 @@ func callableRules(c *Ctx) {
 				pickS(only, "Set is skipped iff args[i] == nil", "the argument thunk skips Set under another condition: some non-nil (e.g. typed-nil) arguments would be replaced by the zero value: "+got.String()), s)
 		}
 	}
-	// typeNilable: an untyped nil is accepted exactly for the kinds whose values can be nil (powerset analysis of the
-	// function over the finite domain of reflect.Kind; nothing is executed)
-	if q := c.F("typeNilable"); q.ok() {
-		kinds := []string{"Invalid", "Bool", "Int", "Int8", "Int16", "Int32", "Int64", "Uint", "Uint8", "Uint16", "Uint32", "Uint64", "Uintptr", "Float32", "Float64",
-			"Complex64", "Complex128", "Array", "Chan", "Func", "Interface", "Map", "Pointer", "Slice", "String", "Struct", "UnsafePointer"}
-		nilable := map[string]bool{"Chan": true, "Func": true, "Interface": true, "Map": true, "Pointer": true, "Slice": true, "UnsafePointer": true}
-		var domain, want uint64
-		okd := true
-		for _, k := range kinds {
-			v, okc := P.PkgConstInt("reflect", k)
-			if !okc || v < 0 || v > 62 {
-				okd = false
-				continue
-			}
-			domain |= 1 << uint(v)
-			if nilable[k] {
-				want |= 1 << uint(v)
-			}
-		}
-		if !okd || len(q.fn.Params) != 1 {
-			q.undecided("COND", "typeNilable is true exactly for the nilable kinds", "reflect.Kind constants could not be resolved")
-		} else {
-			isK := func(v ssa.Value) bool {
-				call, ok := v.(*ssa.Call)
-				return ok && call.Call.IsInvoke() && call.Call.Method.Name() == "Kind" && call.Call.Value == ssa.Value(q.fn.Params[0])
-			}
-			got, okt, why := P.TrueSet(q.fn, isK, domain)
-			if !okt {
-				q.undecided("COND", "typeNilable is true exactly for the nilable kinds", "typeNilable is no longer a pure function of t.Kind() compared with constants: "+why)
-			} else {
-				var diff []string
-				for _, k := range kinds {
-					v, _ := P.PkgConstInt("reflect", k)
-					if (got^want)&(1<<uint(v)) != 0 {
-						diff = append(diff, k)
-					}
-				}
-				q.add("COND", "typeNilable is true exactly for the nilable kinds", got == want,
-					pickS(got == want, "true for Chan, Func, Interface, Map, Pointer, Slice, UnsafePointer and false for the other 20 kinds", "typeNilable answers wrongly for kind(s) "+strings.Join(diff, ", ")+": an untyped nil would be accepted for a type that has no nil (Call would invoke the function with a zero value instead of returning an error) or rejected for one that has"))
-			}
-		}
-	}
+	typeNilableRule(c)
 	// Set on result targets only inside the results thunks
 	var stray []ssa.Instruction
 	for _, fn := range P.Funcs {
@@ -882,3 +841,49 @@ func valueParent(v ssa.Value) *ssa.Function {
 }
 
 var rkDisplay = regexp.MustCompile(`t[0-9]+@[^)]*`)
+
+// typeNilableRule: an untyped nil is accepted exactly for the kinds whose values can be nil (powerset analysis of the
+// function over the finite domain of reflect.Kind; nothing is executed).
+func typeNilableRule(c *Ctx) {
+	P := c.P
+	if q := c.F("typeNilable"); q.ok() {
+		kinds := []string{"Invalid", "Bool", "Int", "Int8", "Int16", "Int32", "Int64", "Uint", "Uint8", "Uint16", "Uint32", "Uint64", "Uintptr", "Float32", "Float64",
+			"Complex64", "Complex128", "Array", "Chan", "Func", "Interface", "Map", "Pointer", "Slice", "String", "Struct", "UnsafePointer"}
+		nilable := map[string]bool{"Chan": true, "Func": true, "Interface": true, "Map": true, "Pointer": true, "Slice": true, "UnsafePointer": true}
+		var domain, want uint64
+		okd := true
+		for _, k := range kinds {
+			v, okc := P.PkgConstInt("reflect", k)
+			if !okc || v < 0 || v > 62 {
+				okd = false
+				continue
+			}
+			domain |= 1 << uint(v)
+			if nilable[k] {
+				want |= 1 << uint(v)
+			}
+		}
+		if !okd || len(q.fn.Params) != 1 {
+			q.undecided("COND", "typeNilable is true exactly for the nilable kinds", "reflect.Kind constants could not be resolved")
+		} else {
+			isK := func(v ssa.Value) bool {
+				call, ok := v.(*ssa.Call)
+				return ok && call.Call.IsInvoke() && call.Call.Method.Name() == "Kind" && call.Call.Value == ssa.Value(q.fn.Params[0])
+			}
+			got, okt, why := P.TrueSet(q.fn, isK, domain)
+			if !okt {
+				q.undecided("COND", "typeNilable is true exactly for the nilable kinds", "typeNilable is no longer a pure function of t.Kind() compared with constants: "+why)
+			} else {
+				var diff []string
+				for _, k := range kinds {
+					v, _ := P.PkgConstInt("reflect", k)
+					if (got^want)&(1<<uint(v)) != 0 {
+						diff = append(diff, k)
+					}
+				}
+				q.add("COND", "typeNilable is true exactly for the nilable kinds", got == want,
+					pickS(got == want, "true for Chan, Func, Interface, Map, Pointer, Slice, UnsafePointer and false for the other 20 kinds", "typeNilable answers wrongly for kind(s) "+strings.Join(diff, ", ")+": an untyped nil would be accepted for a type that has no nil (Call would invoke the function with a zero value instead of returning an error) or rejected for one that has"))
+			}
+		}
+	}
+}
